@@ -256,14 +256,30 @@ def prefix_env(consts, name):
     return {"PREFIX": p}
 
 
-def validate(trace, consts, invariants, properties, name, known, parts=8, timeout=900):
+def split_lines(path, parts):
+    """Split a file of independent cases into <= parts files."""
+    lines = open(path).readlines()
+    parts = max(1, min(parts, len(lines)))
+    per = (len(lines) + parts - 1) // parts
+    out = []
+    for i in range(parts):
+        chunk = lines[i * per:(i + 1) * per]
+        if not chunk:
+            continue
+        p = f"{path}.part{i}"
+        open(p, "w").writelines(chunk)
+        out.append((p, len(chunk), len(chunk)))
+    return out
+
+
+def validate(trace, consts, invariants, properties, name, known, parts=8, timeout=900, module="KrpTrace.tla", raw_cfg=None, by_lines=False):
     """Validate an implementation trace against the specification and evaluate the given formulas
     on the implementation's own states.  Returns a dict with events, conformant, firstBad (global
     line numbers are per part), violations [(formula, part_file, line)], states."""
-    chunks = split_trace(trace, parts)
+    chunks = split_lines(trace, parts) if by_lines else split_trace(trace, parts)
     tc = dict(consts)
-    cfg = cfg_text(tc, spec="TSpec", invariants=["Report"] + list(invariants), properties=properties,
-                   postcondition="Accepted", extra_consts={"Known": known})
+    cfg = raw_cfg or cfg_text(tc, spec="TSpec", invariants=["Report"] + list(invariants), properties=properties,
+                              postcondition="Accepted", extra_consts={"Known": known})
     procs = []
     for i, (p, nlines, nruns) in enumerate(chunks):
         wd = f"{WORK}/{name}.tv{i}"
@@ -273,7 +289,7 @@ def validate(trace, consts, invariants, properties, name, known, parts=8, timeou
             f.write(cfg)
         cmd = (f"timeout {timeout} java -XX:+UseSerialGC -Xss1g -Xmx3g -Dtlc2.tool.queue.IStateQueue=StateDeque -cp {JARS}:{CLASSES} "
                f"tlc2.TLC -workers 1 -metadir {wd}/meta -cleanup -noGenerateSpecTE -config {wd}/model.cfg "
-               f"-dumpTrace json {wd}/cex.json KrpTrace.tla")
+               f"-dumpTrace json {wd}/cex.json {module}")
         e = dict(os.environ)
         e["TRACE"] = p
         procs.append((subprocess.Popen(cmd, shell=True, cwd=SPEC, env=e, stdout=open(f"{wd}/tlc.out", "w"),
